@@ -156,21 +156,24 @@ def replay(p):
 
 # ------------------------------------------------------------------ symbolic harnesses
 def _explore(build):
-    """all feasible paths, or the PathLimit exception (reported as inconclusive: the bound of the shape exceeds the path budget)"""
-    try:
-        return sb.explore(build, max_paths=30000)
-    except sb.PathLimit as e:
-        return e
+    """feasible paths, streamed (nothing is kept per path); running over the budget is reported as inconclusive by _finish"""
+    return sb.explore_iter(build, max_paths=60000)
 
 
 def _finish(name, paths, claims_of, spec, kind, symbols):
-    if isinstance(paths, Exception):
-        return [{"name": name, "status": INCONCLUSIVE, "symbols": ["matrix bits"], "detail": f"path budget exceeded for this shape: {paths}"}]
-    """paths: [(S, value)], claims_of(S, value) -> list of (label, z3 Bool).  One record per instance."""
+    """paths: iterable of (S, value), claims_of(S, value) -> list of (label, z3 Bool).  One record per instance."""
+    try:
+        return _finish_stream(name, paths, claims_of, spec, kind, symbols)
+    except sb.PathLimit as e:
+        return [{"name": name, "status": INCONCLUSIVE, "symbols": ["matrix bits"], "detail": f"path budget exceeded for this shape: {e}"}]
+
+
+def _finish_stream(name, paths, claims_of, spec, kind, symbols):
     t_solver = 0.0
     queries = 0
-    npaths = len(paths)
+    npaths = 0
     for S, val in paths:
+        npaths += 1
         t_solver += S.solver_s
         if S.reachable() != "sat":
             return [{"name": name, "status": HARNESS_ERROR, "detail": "unreachable path admitted"}]
